@@ -18,6 +18,7 @@ import EasyNet.Drv.Race
 import EasyNet.Drv.DgramSrv
 import EasyNet.Drv.Timeout
 import EasyNet.Drv.Send
+import EasyNet.Drv.CancelScope
 open EasyNet.Drv
 
 /-- one runner per model family; each returns `none` for model names it does not know -/
@@ -32,6 +33,7 @@ def runners : List (String → List String → List String → Option (List Stri
   , runDgramSrv
   , runTimeout
   , runSend
+  , runCancelScope
   ]
 
 def dispatch (model : String) (cfg : List String) (ops : List String) : Option (List String) :=
